@@ -10,6 +10,7 @@ import (
 	"bytes"
 	"fmt"
 	"math/rand"
+	"os"
 
 	"github.com/absfs/absnfs"
 )
@@ -249,4 +250,55 @@ func checkC22(r *Result, rng *rand.Rand, thorough bool) {
 		s.Close()
 	}
 	r.count("verifier-instances")
+	durCorrespondence(r, rng, thorough)
+}
+
+// durCorrespondence: random WriteAt / Truncate / Sync / Crash sequences on one file of the reference backend
+// (through its absfs API) against the Lean `Durable` model, comparing volatile and durable contents.
+func durCorrespondence(r *Result, rng *rand.Rand, thorough bool) {
+	ncases := 200
+	if thorough {
+		ncases = 2000
+	}
+	var cases []Case
+	var impl [][]string
+	for i := 0; i < ncases; i++ {
+		fs := NewRefFS()
+		fl, _ := fs.Create("/f")
+		fl.Close()
+		ops := []string{"dur reset"}
+		out := []string{"ok"}
+		n := 1 + rng.Intn(20)
+		for j := 0; j < n; j++ {
+			switch rng.Intn(6) {
+			case 0, 1:
+				off, d := rng.Intn(20), randBytes(rng, rng.Intn(10))
+				f, _ := fs.OpenFile("/f", os.O_WRONLY, 0)
+				f.WriteAt(d, int64(off))
+				f.Close()
+				ops, out = append(ops, fmt.Sprintf("dur write %d %s", off, hx(d))), append(out, "ok")
+			case 2:
+				k := rng.Intn(25)
+				fs.Truncate("/f", int64(k))
+				ops, out = append(ops, fmt.Sprintf("dur trunc %d", k)), append(out, "ok")
+			case 3:
+				f, _ := fs.OpenFile("/f", os.O_WRONLY, 0)
+				f.Sync()
+				f.Close()
+				ops, out = append(ops, "dur sync"), append(out, "ok")
+			case 4:
+				fs.Crash()
+				ops, out = append(ops, "dur crash"), append(out, "ok")
+			default:
+				d, _ := fs.FileData("/f")
+				dd, _ := fs.DurableData("/f")
+				ops, out = append(ops, "dur get"), append(out, hx(d)+" "+hx(dd))
+			}
+		}
+		d, _ := fs.FileData("/f")
+		dd, _ := fs.DurableData("/f")
+		ops, out = append(ops, "dur get"), append(out, hx(d)+" "+hx(dd))
+		cases, impl = append(cases, Case{Ops: ops}), append(impl, out)
+	}
+	compareWithModel(r, "durable", cases, impl, nil)
 }
